@@ -6,6 +6,7 @@
 import FianoModel.Uefi.LayoutLemmas
 
 namespace Fiano.Uefi
+open EditArith
 open Fiano
 
 theorem drop_splice_ge (b : Bytes) (off : Nat) (d : Bytes) (x : Nat) (hx : off + d.length ≤ x)
@@ -89,6 +90,7 @@ theorem filesOk_congr (fuel : Nat) (e : UInt8) (fv fv' : Bytes) (D : Nat) (hlen 
 end Fiano.Uefi
 
 namespace Fiano.Uefi
+open EditArith
 open Fiano
 
 /-- the `(attribute byte, buffer)` pairs the file loop works on -/
